@@ -33,7 +33,7 @@ import struct
 
 import gen_c08
 import vclock
-from vlib import Ctx
+from vlib import Ctx, InfraError
 
 PROPERTY = "C08"
 LEAN_TARGETS = ["Ipv8.C08.Props"]
@@ -330,6 +330,7 @@ class World:
         self.gates = []          # (node idx, future) of joins suspended in that hook, oldest first
         self.joins = []          # join_circuit invocations during the current step: (idx, create payload)
         self.adversaries = set()
+        self.pending_accept = None
         self.squatter_on_path = False   # a hop of the victim circuit misbehaves itself (it may then drop traffic at will)
         self.tampered = False    # the harness altered / forged / redirected something (else: delays, drops, replays only)
         self.slice = 5.0   # recomputed from the nodes' settings below
@@ -338,6 +339,9 @@ class World:
         flags = [{self.tn.PEER_FLAG_RELAY, st}]
         flags += [{self.tn.PEER_FLAG_RELAY, st}] * n_relays
         flags += [{self.tn.PEER_FLAG_RELAY, self.tn.PEER_FLAG_EXIT_BT, st}] * n_exits
+        if desc.get("extra_nodes"):
+            # a node that does not take part at all (no flags) and an exit that does not relay
+            flags += [set(), {self.tn.PEER_FLAG_EXIT_BT, st}]
         self.flags = flags
         if hidden:
             # the shipped subclass (hidden services): same handshake code path through its overrides
@@ -401,6 +405,7 @@ class World:
                 try:
                     payload, _ = ov.serializer.unpack_serializable(_cls, data, offset=23)
                     self.calls.append((idx, _mid, payload, source_address))
+                    self.classify(idx, ov, _mid, payload)
                 except Exception:
                     self.calls.append((idx, _mid, None, source_address))
                 return _orig(source_address, data, circuit_id)
@@ -411,6 +416,95 @@ class World:
             self.sent.append((idx, target_addr, payload))
             return _orig(target_addr, payload)
         ov.send_cell = send_cell
+
+    def classify(self, idx, ov, mid, p):
+        """which branch of the handler this call is going to take, read from the node's state BEFORE it runs (branch
+        classes of the hand-written model definitions; the required ones are checked at the end of every run)"""
+        c = self.ctx.count
+        rc = ov.request_cache
+        if mid == 2:
+            if not ov.settings.peer_flags:
+                c("branch:on_create:no-flags")
+            elif rc.has("created", p.circuit_id):
+                c("branch:on_create:already-joining")
+            elif p.circuit_id in ov.circuits:
+                c("branch:on_create:id-in-use-circuit")
+            elif p.circuit_id in ov.relay_from_to:
+                c("branch:on_create:id-in-use-relay")
+            elif p.circuit_id in ov.exit_sockets:
+                c("branch:on_create:id-in-use-exit")
+            elif self.sym.is_bad(p.key):
+                c("branch:on_create:malformed-key")
+            else:
+                c("branch:on_create:" + ("join-suspended" if idx in self.gated else "join"))
+        elif mid == 4:
+            cc = rc.get("created", p.circuit_id)
+            given = tuple(p.node_addr) != ("0.0.0.0", 0)
+            if self.tn.PEER_FLAG_RELAY not in ov.settings.peer_flags:
+                c("branch:on_extend:no-relay-flag")
+            elif cc is None:
+                c("branch:on_extend:no-created-cache")
+            elif p.node_public_key not in cc.candidates and not given:
+                c("branch:on_extend:unknown-key-no-address")
+            else:
+                c("branch:on_extend:forward-" + ("cached" if p.node_public_key in cc.candidates else "address"))
+        else:
+            req = rc.get("create", p.identifier) if mid == 3 else None
+            if req is not None and req.to_circuit_id == p.circuit_id:
+                es = ov.exit_sockets.get(req.from_circuit_id)
+                if es is None or es.hop.peer is not req.peer:
+                    c("branch:pairing:unknown-exit-socket")
+                elif any(req.to_circuit_id in t for t in (ov.circuits, ov.relay_from_to, ov.exit_sockets)):
+                    c("branch:pairing:outgoing-id-in-use")
+                else:
+                    c("branch:pairing:paired")
+                return
+            if req is not None:
+                c("branch:pairing:other-circuit-id")
+            cache = rc.get("retry", p.circuit_id)
+            circ = ov.circuits.get(p.circuit_id)
+            if circ is None:
+                c("branch:answer:no-circuit")
+            elif cache is None:
+                c("branch:answer:no-retry-cache")
+            elif cache.packet_identifier != p.identifier:
+                c("branch:answer:wrong-identifier")
+            elif circ.unverified_hop is None:
+                c("branch:answer:no-unverified-hop")
+            elif self.sym.is_bad(p.key):
+                c("branch:answer:malformed-key")
+            else:
+                ok = False
+                try:
+                    s1 = circ.unverified_hop.dh_secret.diffie_hellman(p.key)
+                    ok = self.rt.crypto_auth_verify(p.auth, s1[:32], p.key)
+                except Exception:  # noqa: BLE001
+                    ok = False
+                if not ok:
+                    c("branch:answer:bad-auth")
+                elif len(circ.hops) + 1 >= circ.goal_hops:
+                    c("branch:answer:accept-ready")
+                else:
+                    self.pending_accept = (idx, p.circuit_id, self.blob_s(p.candidates_enc).startswith("J/"))
+                    c("branch:answer:accept-extending")
+
+    def classify_after_accept(self):
+        """EXTENDING continuation of an accepted answer: what became of the candidate list"""
+        if self.pending_accept is None:
+            return
+        idx, cid, undecodable = self.pending_accept
+        self.pending_accept = None
+        ov = self.nodes[idx].overlay
+        circ = ov.circuits.get(cid)
+        if circ is None or circ.state == self.tn.CIRCUIT_STATE_CLOSING:
+            self.ctx.count("branch:extend-after-accept:" + ("undecodable-list-circuit-dropped" if undecodable
+                                                            else "no-candidate-circuit-dropped"))
+        elif circ.unverified_hop is None:
+            self.ctx.count("branch:extend-after-accept:send_extend-raised")
+        elif circ.required_exit is not None and len(circ.hops) + 1 == circ.goal_hops:
+            self.ctx.count("branch:extend-after-accept:required-exit")
+        else:
+            self.ctx.count("branch:extend-after-accept:candidate")
 
     def _gate(self, idx, ov):
         """override should_join_circuit (the hook is documented as meant to be overwritten) with a policy that really
@@ -613,6 +707,8 @@ class World:
                 ov = self.nodes[0].overlay
                 c = ov.circuits.get(p.circuit_id)
                 hop = c.unverified_hop if c is not None else None
+                if hop is None or hop.dh_first_part != p.key:
+                    continue      # not an attempt of the code under test (a cell a scenario made this node send)
                 att = {"cid": p.circuit_id, "ident": p.identifier, "X": p.key, "expired": False, "step": self.step_no,
                        "x": hop.dh_secret if hop is not None else None,
                        "target_pk": hop.peer.public_key.get_crypt_pk() if hop is not None else None,
@@ -948,6 +1044,7 @@ class World:
             self.ctx.count(f"deliver-raised:{type(e).__name__}")
         await self.settle()
         answer_calls, handled = self._post()
+        self.classify_after_accept()
         if h.dst not in handled:
             self._record(f"{h.dst} show", "[] | " + self.state_s(h.dst))
         if 0 not in handled and h.dst != 0:
@@ -1016,6 +1113,10 @@ class World:
                 fired += 1
                 self.ctx.count(f"timeout:{pre}")
                 if pre == "retry":
+                    circ = self.nodes[idx].overlay.circuits.get(i)
+                    gone = circ is None or circ.state == self.tn.CIRCUIT_STATE_CLOSING
+                    kind = "create" if c.retry_func.__name__ == "send_initial_create" else "extend"
+                    self.ctx.count(f"branch:retry-timeout:{'dropped' if gone else 'resend-' + kind}")
                     for a in self.attempts.get(i, []):
                         a["expired"] = True
                     # attempts created by the retry itself are fresh again
@@ -1736,6 +1837,79 @@ async def sc_third_party_extend(ctx, rng, desc, order):
         await w.close()
 
 
+async def sc_flags(ctx, rng, desc):
+    """nodes that do not take part: a CREATE to a node without any peer flag, a circuit whose first hop is an exit that
+    does not relay (its EXTEND is ignored), an EXTEND naming an unknown key without an address"""
+    w = await build_world(ctx, rng, desc)
+    try:
+        flagless, exit_only = len(w.nodes) - 2, len(w.nodes) - 1
+        ov = w.nodes[0].overlay
+        a = w.new_attacker_key()
+        data = w.build_create(rng.getrandbits(32), rng.randrange(0xFFFF), w.nodes[0].my_peer.public_key.key_to_bin(),
+                              a.get_crypt_pk())
+        cidf, = struct.unpack_from("!I", data, 23)
+        w.tampered = True
+        await w.deliver(Held(w.nodes[0].endpoint.wan_address, flagless, data, 0, 2, cidf, 0), data=data)
+        cid = ov._generate_circuit_id()
+        peer = w.nodes[exit_only].my_peer
+
+        def mk():
+            circ = w.tn.Circuit(cid, 2)
+            ov.circuits[cid] = circ
+            ov.send_initial_create(circ, [peer], 6)
+            return circ
+
+        def line(_):
+            return f"0 cc {cid} 2 - [{exit_only + 1}] {w.env_s(0, cid)}"
+        w.track(0, [cid])
+        await w.api(mk, line)
+        await run_fifo(w, 40)
+        # a second, regular circuit; once its first hop is there the owner also names a key nobody knows, no address
+        c2 = await start_circuit(w, 3)
+        sent = [False]
+        allow = [False]
+        stale = []
+
+        async def on_msg(h: Held):
+            if h.kind == -1 and h.from_idx == 0 and c2 is not None and h.cid == c2.circuit_id:
+                if allow[0]:
+                    allow[0] = False
+                    return None
+                # every EXTEND of the second circuit is delayed beyond the relay's created cache (unstable_timeout)
+                stale.append(h)
+                return "handled"
+            if c2 is not None and c2.hops and not sent[0]:
+                sent[0] = True
+                allow[0] = True
+                bogus = w.new_attacker_key().pub().key_to_bin()
+                x = w.new_attacker_key()
+
+                def send():
+                    ov.send_cell(c2.hop.address, w.pl.ExtendPayload(c2.circuit_id, rng.randrange(0xFFFF), bogus,
+                                                                    x.get_crypt_pk(), ("0.0.0.0", 0)))
+                await w.api(send, lambda _: None)
+            return None
+        await run_fifo(w, 120, on_msg)
+        if c2 is not None and c2.hops and not sent[0]:
+            sent[0] = True
+            allow[0] = True
+            bogus = w.new_attacker_key().pub().key_to_bin()
+            x = w.new_attacker_key()
+            await w.api(lambda: ov.send_cell(c2.hop.address, w.pl.ExtendPayload(
+                c2.circuit_id, rng.randrange(0xFFFF), bogus, x.get_crypt_pk(), ("0.0.0.0", 0))), lambda _: None)
+            await run_fifo(w, 40, on_msg)
+        await w.advance(w.t_retry())
+        await run_fifo(w, 80, on_msg)
+        await w.advance(w.t_created())
+        for h in stale[:1]:
+            await w.deliver(h)
+        await run_fifo(w, 80)
+        await w.finish()
+        return w
+    finally:
+        await w.close()
+
+
 async def sc_cross(ctx, rng, desc, hops, variant):
     """two circuits built at once; the first answers are exchanged between them (circuit id only / id + identifier)"""
     w = await build_world(ctx, rng, desc)
@@ -2064,6 +2238,7 @@ def scenario_list(ctx: Ctx, tier: str):
         for pos in range(1, hops):
             for v in ("bad-only", "relays-then-bad", "bad-relay", "empty", "only-me", "garbage-bytes"):
                 out.append({"k": "bad-candidates", "hops": hops, "pos": pos, "variant": v})
+        out.append({"k": "flags", "extra_nodes": True, "n": hops})
         if hops == 2:
             for order in ("third-party-first", "victim-first"):
                 for rep_ in range(2):
@@ -2148,6 +2323,8 @@ async def run_scenario(ctx, d: dict, sub_seed: int):
         return await sc_bad_candidates(ctx, rng, desc, d["hops"], d["pos"], d["variant"])
     if k == "third-party-extend":
         return await sc_third_party_extend(ctx, rng, desc, d["order"])
+    if k == "flags":
+        return await sc_flags(ctx, rng, desc)
     if k == "id-squat":
         return await sc_id_squat(ctx, rng, desc, d["hops"], d["pos"], d["order"])
     if k == "replay-expired":
@@ -2218,6 +2395,38 @@ def run_all(ctx: Ctx, scenarios: list[tuple[dict, int]], use_model: bool):
         ctx.extra["compared_steps"] = ctx.extra.get("compared_steps", 0) + n_cmp
 
 
+# Branch classes of the hand-written model definitions (and of the code they mirror) that every quick/thorough run must
+# reach at least once; if one stays at zero the run ends with exit 2 (infrastructure), never with a pass.
+REQUIRED_BRANCHES = [
+    "branch:answer:no-circuit", "branch:answer:no-retry-cache", "branch:answer:wrong-identifier",
+    "branch:answer:malformed-key", "branch:answer:bad-auth", "branch:answer:accept-ready",
+    "branch:answer:accept-extending",
+    "branch:extend-after-accept:candidate", "branch:extend-after-accept:required-exit",
+    "branch:extend-after-accept:send_extend-raised", "branch:extend-after-accept:undecodable-list-circuit-dropped",
+    "branch:extend-after-accept:no-candidate-circuit-dropped",
+    "branch:on_create:no-flags", "branch:on_create:already-joining", "branch:on_create:id-in-use-circuit",
+    "branch:on_create:id-in-use-exit", "branch:on_create:malformed-key", "branch:on_create:join",
+    "branch:on_create:join-suspended",
+    "branch:on_extend:no-relay-flag", "branch:on_extend:no-created-cache", "branch:on_extend:unknown-key-no-address",
+    "branch:on_extend:forward-cached", "branch:on_extend:forward-address",
+    "branch:pairing:paired", "branch:pairing:unknown-exit-socket", "branch:pairing:outgoing-id-in-use",
+    "branch:pairing:other-circuit-id",
+    "branch:retry-timeout:dropped", "branch:retry-timeout:resend-create", "branch:retry-timeout:resend-extend",
+    "join-resumed:joined", "join-resumed:refused", "timeout:create", "timeout:created",
+    "accept:genuine", "accept:non-genuine-material", "tampered:no", "tampered:yes", "e2e:probe",
+    "overlay-class:TunnelCommunity", "overlay-class:HiddenTunnelCommunity",
+]
+# listed in the design but NOT required: unreachable behind the Python dispatcher / after fix 4ca5f25
+UNREACHABLE_BRANCHES = ["branch:on_create:id-in-use-relay", "branch:answer:no-unverified-hop"]
+
+
+def require_coverage(ctx: Ctx):
+    missing = [k for k in REQUIRED_BRANCHES if not ctx.counts.get(k)]
+    ctx.extra["required_branch_classes"] = {"required": len(REQUIRED_BRANCHES), "missing": missing}
+    if missing:
+        raise InfraError("coverage lost: branch classes never reached in this run: " + ", ".join(missing))
+
+
 def generate(ctx: Ctx):
     src, _ = gen_c08.translate()
     return [("Ipv8/C08/GenCrypto.lean", src)]
@@ -2232,6 +2441,9 @@ def run(ctx: Ctx):
         for _rep in range(2):
             sc += [(d, ctx.rng.getrandbits(32)) for d in scenario_list(ctx, "thorough")]
     run_all(ctx, sc, ctx.model_ok)
+    if not ctx.failures and not ctx.disagreements and not ctx.broken:
+        # only an otherwise green run is turned into exit 2 by lost coverage; a red verdict is never masked
+        require_coverage(ctx)
 
 
 def search(ctx: Ctx, reason: str):
